@@ -36,30 +36,54 @@ EXTRA_HEADER = "Set Warnings \"-require-in-section\".\nRequire Import UFLV.Props
 
 
 class PCase(coqgen.Case):
-    """A traced case whose specification is `pf tree`; adds the shape-agreement obligations."""
+    """A traced case whose specification is `pf tree` (or `pf_meshseq` for a mixed element on a
+    MeshSequence); adds the shape-agreement obligations."""
 
     def __init__(self, name, out, descr, g, t, fterm, mesh, value_shape, ref_shape, note):
         ctx = ufl2coq.Ctx()
-        kJ, iJ = ctx.term(Jacobian(mesh))[:2]
-        kK, iK = ctx.term(JacobianInverse(mesh))[:2]
-        kD, iD = ctx.term(JacobianDeterminant(mesh))[:2]
+        meshes = list(mesh) if isinstance(mesh, (list, tuple)) else [mesh]
+        geo = []
+        for m in meshes:
+            kJ, iJ = ctx.term(Jacobian(m))[:2]
+            kK, iK = ctx.term(JacobianInverse(m))[:2]
+            kD, iD = ctx.term(JacobianDeterminant(m))[:2]
+            geo.append((kJ, iJ, kK, iK, kD, iD))
         kf, jf = ctx.term(fterm)[:2]
-        self.tree = O.tree_text(descr)
-        spec = (f"@pf A {g} {t} (env s {kJ} {iJ}) (env s {kK} {iK}) (env s {kD} {iD} []) "
-                f"{self.tree} (env s {kf} {jf}) {{c}}")
-        super().__init__(name, out=out, spec=spec, hyps=[f"env s {kD} {iD} [] <> z0"], note=note, ctx=ctx)
+        self.seq = descr[0] == "seq"
+        if self.seq:
+            assert len(descr[1]) == len(meshes)
+            self.tree = "[" + "; ".join(
+                f"(@Build_geo A (env s {kJ} {iJ}) (env s {kK} {iK}) (env s {kD} {iD} []), {O.tree_text(x)})"
+                for (kJ, iJ, kK, iK, kD, iD), x in zip(geo, descr[1])) + "]"
+            spec = f"@pf_meshseq A {g} {t} {self.tree} (env s {kf} {jf}) {{c}}"
+        else:
+            kJ, iJ, kK, iK, kD, iD = geo[0]
+            self.tree = O.tree_text(descr)
+            spec = (f"@pf A {g} {t} (env s {kJ} {iJ}) (env s {kK} {iK}) (env s {kD} {iD} []) "
+                    f"{self.tree} (env s {kf} {jf}) {{c}}")
+        hyps = [f"env s {q[4]} {q[5]} [] <> z0" for q in geo]
+        super().__init__(name, out=out, spec=spec, hyps=hyps, note=note, ctx=ctx)
         self.descr, self.g, self.t, self.fterm, self.mesh = descr, g, t, fterm, mesh
         self.value_shape, self.ref_shape = tuple(value_shape), tuple(ref_shape)
 
     def emit(self):
         txt = super().emit()
-        extra = (
-            f"Example {self.name}_pshape : pshape {self.g} {self.tree} = {ufl2coq.natlist(self.value_shape)}. "
-            f"Proof. reflexivity. Qed.\n"
-            f"Example {self.name}_rshape : rshape {self.tree} = {ufl2coq.natlist(self.ref_shape)}. "
-            f"Proof. reflexivity. Qed.\n"
-            f"Example {self.name}_vshape : shape {self.name}_out = {ufl2coq.natlist(self.value_shape)}. "
-            f"Proof. reflexivity. Qed.\n")
+        if self.seq:
+            # the list mentions the bound side variable s: state the sizes for every s
+            tree = self.tree
+            extra = (
+                f"Example {self.name}_pshape : forall s : side, [seq_psize A {self.g} {tree}] = "
+                f"{ufl2coq.natlist(self.value_shape)}. Proof. reflexivity. Qed.\n"
+                f"Example {self.name}_rshape : forall s : side, [seq_rsize A {tree}] = "
+                f"{ufl2coq.natlist(self.ref_shape)}. Proof. reflexivity. Qed.\n")
+        else:
+            extra = (
+                f"Example {self.name}_pshape : pshape {self.g} {self.tree} = {ufl2coq.natlist(self.value_shape)}. "
+                f"Proof. reflexivity. Qed.\n"
+                f"Example {self.name}_rshape : rshape {self.tree} = {ufl2coq.natlist(self.ref_shape)}. "
+                f"Proof. reflexivity. Qed.\n")
+        extra += (f"Example {self.name}_vshape : shape {self.name}_out = {ufl2coq.natlist(self.value_shape)}. "
+                  f"Proof. reflexivity. Qed.\n")
         self.lemmas = [f"{self.name}_pshape", f"{self.name}_rshape", f"{self.name}_vshape"] + self.lemmas
         return txt.replace(f"Example {self.name}_shape ", extra + f"Example {self.name}_shape ", 1)
 
@@ -149,24 +173,86 @@ def random_descriptor(rng, t, g, depth, budget=24):
     return ("mixed", [leaf(), leaf()])
 
 
-def build_case(name, descr, cellname, t, g, argkind, note):
-    mesh = uflgen.mesh(cellname, g)
+SYM_ORDERS = ["rowmajor", "reversed", "diagfirst", "colmajor"]
+
+
+def build_case(name, descr, cellname, t, g, argkind, note, sym_order="rowmajor"):
     nd = O.normalise(descr)
-    element = O.make_element(descr, mesh.ufl_cell())
-    V = ufl.FunctionSpace(mesh, element)
+    O.SYM_ORDER = sym_order
+    try:
+        if nd[0] == "seq":
+            # one fresh mesh per sub-element (same cell type and gdim, different Jacobians)
+            cell = uflgen.CELLS[cellname]
+            mesh = [ufl.Mesh(uflgen.LagrangeElement(cell, 1, (g,))) for _ in nd[1]]
+            element = O.make_element(descr, cell)
+            V = ufl.FunctionSpace(ufl.MeshSequence(mesh), element)
+        else:
+            mesh = uflgen.mesh(cellname, g)
+            element = O.make_element(descr, mesh.ufl_cell())
+            V = ufl.FunctionSpace(mesh, element)
+    finally:
+        O.SYM_ORDER = "rowmajor"
     f = ufl.Coefficient(V) if argkind == "C" else ufl.Argument(V, 0)
     out = apply_function_pullbacks(f)
     note = dict(note, element=O.short(nd), cell=cellname, gdim=g, tdim=t, form_argument=argkind,
+                symmetry_dict_order=sym_order,
                 value_shape=list(V.value_shape), reference_value_shape=list(element.reference_value_shape))
     return PCase(name, out, nd, g, t, f, mesh, V.value_shape, element.reference_value_shape, note)
+
+
+def nested_sequence_probe():
+    """Known finding meshsequence-nested-subdomain-dropped: replay the witnesses on the real code.
+    Returns None if nested sub-elements of a MeshSequence element are pushed forward correctly, else a
+    description of what fails (such elements are then left out of the enumerations)."""
+    L = lambda k, sh: ("leaf", k, sh)    # noqa: E731
+    M = ("mixed", [L("contra", (2,)), L("l2", ())])
+    for d in [("seq", [("symm", (2,), [0, 1], [M, M]), L("id", ())]),
+              ("seq", [("mixed", [L("contra", (2,)), L("id", ())])] * 2)]:
+        try:
+            c = build_case("probe", d, "triangle", 2, 2, "C", {})
+            w = O.find_mismatch(c.out, c.descr, 2, 2, c.fterm, c.mesh, trials=4)
+        except Exception as ex:
+            return {"element": O.short(d), "raised": f"{type(ex).__name__}: {ex}"}
+        if w:
+            return {"element": O.short(d), "witness": w}
+    return None
+
+
+def sequence_descriptors(t, nested_ok=True):
+    """mixed elements on a MeshSequence, with REPEATED equal sub-elements on different meshes"""
+    L = lambda k, sh: ("leaf", k, sh)    # noqa: E731
+    vec, ten = (t,), (t, t)
+    if not nested_ok:
+        return [
+            ("seq", [L("contra", vec), L("contra", vec)]),
+            ("seq", [L("cov", vec), L("id", ()), L("contra", vec), L("cov", vec)]),
+            ("seq", [L("contra", vec), L("cov", vec)]),
+            ("seq", [L("l2", ()), L("id", ()), L("l2", ())]),
+            ("seq", [L("dcov", ten), L("covcontra", ten), L("dcov", ten)]),
+            ("seq", [L("contra", (2,) + vec), L("l2", (2,)), L("contra", (2,) + vec)]),
+        ]
+    return [
+        ("seq", [L("contra", vec), L("contra", vec)]),
+        ("seq", [L("cov", vec), L("id", ()), L("contra", vec), L("cov", vec)]),
+        ("seq", [L("contra", vec), L("cov", vec)]),
+        ("seq", [L("l2", ()), L("id", ()), L("l2", ())]),
+        ("seq", [("mixed", [L("contra", vec), L("id", ())]), L("dcov", ten),
+                 ("mixed", [L("contra", vec), L("id", ())])]),
+        ("seq", [("symm", (2,), [1, 0], [L("cov", vec), L("contra", vec)]), L("l2", (2,)),
+                 ("symm", (2,), [1, 0], [L("cov", vec), L("contra", vec)])]),
+    ]
 
 
 def safe(s):
     return "".join(ch if ch.isalnum() else "_" for ch in s)
 
 
+NESTED_SEQ_PROBE = {"result": None}
+
+
 def build_cases(run):
     cases, skipped = [], []
+    NESTED_SEQ_PROBE["result"] = nested_sequence_probe()
     tier = run.tier
     for cellname, t, g in CELL_GDIMS:
         for k, d in enumerate(leaf_descriptors(t, tier)):
@@ -179,23 +265,41 @@ def build_cases(run):
         for k, d in enumerate(nested_descriptors(t, g)):
             nm = safe(f"N_{cellname[:3]}{g}_{k}")
             cases.append((nm, d, cellname, t, g, "C" if k % 2 == 0 else "A", {"class": "nested"}))
+    seq_cells = CELL_GDIMS if tier == "thorough" else [("interval", 1, 2), ("triangle", 2, 2), ("triangle", 2, 3),
+                                                       ("tetrahedron", 3, 3)]
+    nested_ok = NESTED_SEQ_PROBE["result"] is None
+    for cellname, t, g in seq_cells:
+        for k, d in enumerate(sequence_descriptors(t, nested_ok)):
+            if tier == "quick" and cellname != "triangle" and k >= 3:
+                continue
+            nm = safe(f"Q_{cellname[:3]}{g}_{k}")
+            cases.append((nm, d, cellname, t, g, "C" if k % 2 == 0 else "A", {"class": "mesh-sequence"}))
     rng = random.Random(1000 + run.seed)
     nrand = 8 if tier == "quick" else 80
     for k in range(nrand):
         cellname, t, g = rng.choice(CELL_GDIMS)
         d = random_descriptor(rng, t, g, depth=rng.choice([2, 3]))
+        if rng.random() < 0.35:      # put it (twice, with something in between) on a MeshSequence
+            other = random_descriptor(rng, t, g, depth=1, budget=6)
+            if not nested_ok:        # known finding: only leaves can live on a MeshSequence
+                leaves = [x for x in (d[1] if d[0] == "mixed" else d[3]) if x[0] == "leaf"] or [("leaf", "contra", (t,))]
+                d, other = leaves[0], rng.choice(leaves + [("leaf", "l2", ()), ("leaf", "cov", (t,))])
+            d = ("seq", rng.choice([[d, d], [d, other, d], [other, d]]))
         nm = safe(f"R_{cellname[:3]}{g}_{k}")
         cases.append((nm, d, cellname, t, g, rng.choice("CA"), {"class": "random", "seed": run.seed}))
     built = []
-    for nm, d, cellname, t, g, ak, note in cases:
+    for idx, (nm, d, cellname, t, g, ak, note) in enumerate(cases):
         nd = O.normalise(d)
+        # the insertion order of the symmetry dict is the user's business: cycle through several orders
+        order = SYM_ORDERS[idx % len(SYM_ORDERS)] if "Symm" in O.tree_text(nd) else "rowmajor"
         # symmetric elements whose sub-elements have different physical shapes are outside the
         # statement (pullback.py computes the shape from sub_elements[0]); never generated here
         try:
-            built.append(build_case(nm, d, cellname, t, g, ak, note))
+            built.append(build_case(nm, d, cellname, t, g, ak, note, order))
         except Exception as ex:     # the real code raised on a valid element: a failing input
             skipped.append({"case": nm, "element": O.short(nd), "element_tree": O.tree_text(nd), "cell": cellname,
-                            "gdim": g, "form_argument": ak, "raised": f"{type(ex).__name__}: {ex}"})
+                            "gdim": g, "form_argument": ak, "symmetry_dict_order": order,
+                            "raised": f"{type(ex).__name__}: {ex}"})
     return built, skipped
 
 
@@ -266,6 +370,17 @@ def shape_rejections(run):
 
 def main(run):
     cases, skipped = build_cases(run)
+    probe = NESTED_SEQ_PROBE["result"]
+    if probe is not None:
+        kf = next((k for k in vlib.load_known_findings("C08")
+                   if k.get("id") == "meshsequence-nested-subdomain-dropped"), None)
+        if kf is not None:
+            run.known("mixed element on a MeshSequence with a mixed/symmetric sub-element: the component mesh is not "
+                      f"passed down to the nested pullbacks ({probe['element']}: "
+                      f"{probe.get('raised') or 'silently wrong J/detJ, component ' + str(probe['witness']['component'])})")
+        else:
+            run.violation(dict(probe, what="nested sub-element of a MeshSequence element is not pushed forward with "
+                                           "its component mesh"), True)
     for sk in skipped[:5]:
         run.violation(dict(sk, what="apply_function_pullbacks raised on a Coefficient/Argument of a valid element "
                                     "(expected: the declared push-forward)",
